@@ -7,6 +7,21 @@ T = {
  "C01": ("Three-way agreement with a bit-serial reference division and crc_legacy on generated frames, parity closure, sampled linearity, exhaustive weight<=3 / burst<=12 injection on valid frames, and an exhaustive syndrome-closure computation that is complete for weight<=5 given linearity.",
          "ref/crc24.py written from Annex 10; implementation linearity is sampled, not proved.",
          "property-based testing (Hypothesis) + exhaustive enumeration against a reference CRC"),
+ "C02": ("Generated frames for every DF 0..31, both lengths and three letter cases, built with the AA field or the AP overlay of a reference CRC; exact recovery, None elsewhere, string identity across formats/cases for one transponder, and a strided (thorough: complete) sweep of the 2^24 addresses.",
+         "ref/crc24.py AP/PI overlay per Annex 10.",
+         "property-based testing (Hypothesis) + address-space enumeration, round trip through a reference frame builder"),
+ "C07": ("Exhaustive enumeration of all 8192 13-bit codes and all 4096 x TC 12-bit fields, each embedded in every carrier format with random contexts, against a Gillham *encoder* written from Annex 10; context independence as a metamorphic relation.",
+         "ref/gillham.py encoder (1280 legal codes); metric altitudes judged to < 1 ft.",
+         "exhaustive enumeration against the inverse image of a reference Gillham encoder"),
+ "C08": ("Exhaustive enumeration of all 8192 identity patterns (Python and emulated Cython squawk, DF5/DF21/TC28 carriers), the full FS x DR x IIS x IDS product, CA x all interrogator codes incl. the corrupt range, and every DF for the guards.",
+         "interleave and SI numbering per Annex 10; description strings not asserted.",
+         "exhaustive enumeration with random contexts against reference encoders"),
+ "C09": ("All 128x2x128 surface movement/track codes exhaustively; every TC19 field swept over its whole range per subtype with the rest random, plus boundary-biased Hypothesis combinations; results compared with the DO-260B encoding rules.",
+         "surface speed accepted anywhere inside the DO-260B movement bin; reserved subtypes left to C14.",
+         "exhaustive enumeration + property-based testing against the DO-260B field encoding"),
+ "C10": ("Every legal character code at every position exhaustively plus random identifications, on TC1-4 (DF17/18) and BDS 2,0 (DF20/21) carriers, with a one-character metamorphic change.",
+         "Annex 10 six-bit alphabet table in the check.",
+         "property-based testing (Hypothesis) + exhaustive per-position enumeration, encode/decode round trip"),
  "C03": ("Generated even/odd airborne pairs from an independent DO-260B reference encoder, dense at every NL transition, pole, equator and antimeridian, all time and argument orders; decoded result compared with the encoded position of the newer frame.",
          "ref/cpr.py (encoder, NL table cross-checked with the printed DO-260B values); tolerance one quantisation step as the property states.",
          "property-based testing (Hypothesis), round trip through a reference CPR encoder"),
